@@ -10,6 +10,7 @@ import (
 	"github.com/gobwas/ws"
 	"github.com/gobwas/ws/wsutil"
 
+	"verifharness/drive"
 	"verifharness/mon"
 	"verifharness/ref"
 	"verifharness/xport"
@@ -243,7 +244,9 @@ func subReader() mon.Sub {
 					plan = ps[0]
 				}
 			}
-			rd := wsutil.NewCipherReader(xport.NewChunker(masked, plan), key)
+			// the kind of io.Reader behind the cipher varies (buffered, part-consumed, Read-only)
+			wrap := drive.Wraps[c.Rng.Intn(len(drive.Wraps))]
+			rd := wsutil.NewCipherReader(drive.WrapSource(xport.NewChunker(masked, plan), wrap), key)
 			resetAt := -1
 			if c.Rng.Intn(3) == 0 && n > 0 {
 				resetAt = c.Rng.Intn(n)
@@ -257,7 +260,7 @@ func subReader() mon.Sub {
 					did = true
 					key = keyOf(c, 3)
 					masked = ref.Mask(src, key, 0)
-					rd.Reset(xport.NewChunker(masked, plan), key)
+					rd.Reset(drive.WrapSource(xport.NewChunker(masked, plan), drive.Wraps[c.Rng.Intn(len(drive.Wraps))]), key)
 					got = got[:0]
 				}
 				if did || resetAt < 0 {
@@ -284,7 +287,7 @@ func subReader() mon.Sub {
 				}
 			}
 			if !bytes.Equal(got, src) {
-				c.Fail("reader/bytes", "CipherReader output differs from the XOR of the source", map[string]interface{}{"len": n, "plan": plan.String(), "buf": bs, "reset_at": resetAt, "first_diff_at": firstDiff(got, src)})
+				c.Fail("reader/bytes", "CipherReader output differs from the XOR of the source", map[string]interface{}{"len": n, "plan": plan.String(), "buf": bs, "reset_at": resetAt, "source": wrap, "first_diff_at": firstDiff(got, src)})
 				return
 			}
 			c.Classf("n=%s plan=%s buf=%d reset=%v", lenClass(n), plan.String(), bs, resetAt >= 0)
@@ -317,7 +320,11 @@ func subWriter() mon.Sub {
 				rec.FailAt = c.Rng.Intn(len(parts))
 				rec.ShortN = c.Rng.Intn(parts[rec.FailAt] + 1)
 			}
-			w := wsutil.NewCipherWriter(rec, key)
+			var dst io.Writer = rec
+			if c.Rng.Intn(3) == 0 {
+				dst = xport.RichDst{Rec: rec} // a destination with ReadFrom / WriteString of its own
+			}
+			w := wsutil.NewCipherWriter(dst, key)
 			pos := 0
 			var accepted []byte
 			viaCopy := 0
